@@ -9,6 +9,7 @@ package combinator
 import (
 	"sync/atomic"
 
+	"github.com/opsidian/parsley/ast"
 	"github.com/opsidian/parsley/data"
 	"github.com/opsidian/parsley/parser"
 	"github.com/opsidian/parsley/parsley"
@@ -29,6 +30,10 @@ func Memoize(p parsley.Parser) parser.Func {
 		}
 
 		node, cp, err := p.Parse(ctx, leftRecCtx.Inc(parserIndex), pos)
+		if nl, ok := node.(ast.NodeList); ok {
+			// The list is shared between the cache and every caller, so nobody may append into its spare capacity
+			node = nl[:len(nl):len(nl)]
+		}
 		leftRecCtx = leftRecCtx.Filter(cp)
 
 		res := &parsley.Result{
